@@ -12,7 +12,12 @@
 # masks the receive interrupt for a value the receive step really returns,
 # C06.R9 an idle verdict of the pull taken on a summary instead of the queues
 # (a message counter) is zero exactly when every queue is empty, for every
-# number of queued messages.  See DESIGN.md section 7, C06.
+# number of queued messages, C06.R10 the buffer the overflow path leaves in
+# rx.msg (freed + re-allocated, or recycled in place by msgb_reset & co.) has
+# the headroom, capacity and emptiness of a fresh one - evaluated, on the full
+# buffer, from the bodies of the msgb helpers, C06.R11 every DLCI enumerator
+# and every constant DLCI registered / sent on in sercomm.c is inside the
+# per-DLCI tables.  See DESIGN.md section 7, C06.
 
 import os
 import shutil
@@ -76,7 +81,12 @@ EXPLANATION = (
     "+1 (once per enqueue on every walked path of sercomm_sendmsg) or -1 (once per successful dequeue on every walked path "
     "of the pull), under the lock: the test is then evaluated on (number of queued messages) wrapped to that integer's "
     "type, and the smallest positive count that reads as idle is the witness (256 for an 8-bit counter) unless that many "
-    "struct msgb cannot exist in the build's address space.  A statement about all paths of "
+    "struct msgb cannot exist in the build's address space.  The buffer an over-long frame leaves behind: the operations the "
+    "walked overflow paths of the receive step apply to the receive buffer (free, allocate, NULL, any call that takes it) are "
+    "replayed on the full buffer of each build by evaluating the msgb helpers' bodies, and the buffer left for the next frame "
+    "must have the headroom the handlers push into, the full receive capacity and no content.  The per-DLCI tables: enumerator "
+    "values of the DLCI enumeration and the constant DLCIs at the register / sendmsg call sites of sercomm.c are compared "
+    "with the array extents clang resolved for dlci_handler[] / dlci_queues[].  A statement about all paths of "
     "one step holds for every octet stream and every queueing history.")
 ALLOC_ASSUMPTION = (
     "sercomm_alloc_msgb() returns a buffer (non-NULL) in the receive step: the property quantifies over histories in which "
@@ -3693,26 +3703,41 @@ def r11_table_extent(L, tu, tag):
     limit = min(ext.values())
     tables = "%s[%d] / %s[%d]" % (HANDLERS.split(".")[-1], ext[HANDLERS], QUEUES.split(".")[-1], ext[QUEUES])
     decl = None
-    for d in walk(tu.ast):
+    for d in kids(tu.ast):
         if kind(d) == "EnumDecl" and d.get("name") == DLCI_ENUM and kids(d):
             decl = d
     if decl is None:
-        raise AnalysisError("enum %s vanished" % DLCI_ENUM)
+        # the enumeration was renamed / made anonymous: it is the one whose enumerators the file's own call sites
+        # pass as DLCI
+        found = {}
+        for fn in own_functions(tu).values():
+            for callee in (REG, SEND):
+                for c in calls_to(fn, callee):
+                    a = strip(call_args(c)[0], casts=True) if call_args(c) else None
+                    rd = a.get("referencedDecl", {}) if kind(a) == "DeclRefExpr" else {}
+                    par = tu.parent.get(id(tu.by_id.get(rd.get("id")))) if rd.get("kind") == "EnumConstantDecl" else None
+                    if kind(par) == "EnumDecl":
+                        found[id(par)] = par
+        if len(found) != 1:
+            raise AnalysisError("enum %s vanished and the enumeration of the DLCIs cannot be identified from the call sites "
+                                "in %s" % (DLCI_ENUM, tu.rel))
+        decl = list(found.values())[0]
     hfile = HELPER_FILES.get(os.path.basename(decl.get("_file") or ""), HDR)
     L.unit(hfile)
     names = [c for c in kids(decl) if kind(c) == "EnumConstantDecl"]
+    ename = decl.get("name") or "<anonymous DLCI enumeration>"
     counters = []
     for c in names:
         v = tu.enums.get(c.get("name"))
         if v is None:
-            raise AnalysisError("enumerator %s of enum %s does not fold" % (c.get("name"), DLCI_ENUM))
+            raise AnalysisError("enumerator %s of enum %s does not fold" % (c.get("name"), ename))
         if v == limit:
             counters.append(c.get("name"))      # the number of DLCIs, not a DLCI (call sites: below)
             continue
-        L.ob(R, hfile, "enum " + DLCI_ENUM, "DLCI enumerator %s has a slot in the per-DLCI tables of sercomm.c (handler table and "
+        L.ob(R, hfile, "enum " + ename, "DLCI enumerator %s has a slot in the per-DLCI tables of sercomm.c (handler table and "
              "transmit queues are indexed by the DLCI)" % c.get("name"), "0 <= %s < %d" % (c.get("name"), limit),
              "%s = %d; tables %s" % (c.get("name"), v, tables), 0 <= v < limit, tu.line(c))
-    L.floor(R, "enumerators of enum %s (%s build)" % (DLCI_ENUM, tag), len(names), 2)
+    L.floor(R, "enumerators of the DLCI enumeration (%s build)" % tag, len(names), 2)
     L.extra.setdefault("dlci_tables", {})[tag] = {"extents": tables, "enumerators equal to the extent (count, no DLCI)": counters}
     nsites = 0
     for name, fn in sorted(own_functions(tu).items()):
